@@ -31,15 +31,27 @@ import (
 // gqlDefaultRepoName is the name under which RegisterDefaultRepository files the repository.
 const gqlDefaultRepoName = "__default"
 
-// GQLHarness serves one replica of a world through the web UI's handler stack.
+// GQLServed is one repository of the served registry.
+type GQLServed struct {
+	Name string // name under which the repository is registered (gqlDefaultRepoName for the default one)
+	Rep  *world.Replica
+	RC   *cache.RepoCache
+}
+
+// GQLHarness serves one replica of a world (or several: NewGQLHarnessMulti) through the web UI's handler stack.
 type GQLHarness struct {
-	Rep    *world.Replica
+	Rep    *world.Replica // the first served repository
 	MRC    *cache.MultiRepoCache
-	RC     *cache.RepoCache
+	RC     *cache.RepoCache // cache of the first served repository
 	UserId entity.Id
+	Repos  []GQLServed // every served repository, in registration order
 
 	anon http.Handler // read-only web UI: no auth middleware
 	user http.Handler // read-write web UI: auth.Middleware(UserId)
+
+	// the two file handlers on their own, for requests whose "repo" route variable cannot be expressed in a URL
+	// the router accepts (the empty name, which the handlers document as "the default repository")
+	uploadH, gitfileH http.Handler
 
 	Requests int64
 }
@@ -60,31 +72,69 @@ func webuiRouter(mrc *cache.MultiRepoCache, userId *entity.Id, graphqlHandler ht
 // NewGQLHarness builds the cache of rep (as `git-bug webui` does) and the two
 // handler stacks. userId must be an identity stored in rep.
 func NewGQLHarness(rep *world.Replica, userId entity.Id) (*GQLHarness, error) {
-	mrc := cache.NewMultiRepoCache()
-	rc, events := mrc.RegisterDefaultRepository(rep.Repo)
-	for ev := range events {
-		if ev.Err != nil {
-			for range events {
-			}
-			return nil, fmt.Errorf("cache build: %w", ev.Err)
-		}
+	return NewGQLHarnessMulti([]*world.Replica{rep}, []string{gqlDefaultRepoName}, userId)
+}
+
+// NewGQLHarnessMulti serves several repositories from one MultiRepoCache: reps[i] is registered under names[i]
+// (gqlDefaultRepoName or "": RegisterDefaultRepository, anything else: RegisterRepository). The repositories are
+// registered one after the other (the registry is a plain map). userId must be an identity stored in every
+// repository in which requests with a user are to be accepted.
+func NewGQLHarnessMulti(reps []*world.Replica, names []string, userId entity.Id) (*GQLHarness, error) {
+	if len(reps) == 0 || len(reps) != len(names) {
+		return nil, fmt.Errorf("NewGQLHarnessMulti: %d repositories, %d names", len(reps), len(names))
 	}
-	rep.Cache = rc
-	h := &GQLHarness{Rep: rep, MRC: mrc, RC: rc, UserId: userId}
+	mrc := cache.NewMultiRepoCache()
+	h := &GQLHarness{MRC: mrc, UserId: userId}
+	for i, rep := range reps {
+		name := names[i]
+		var rc *cache.RepoCache
+		var events chan cache.BuildEvent
+		if name == "" || name == gqlDefaultRepoName {
+			name = gqlDefaultRepoName
+			rc, events = mrc.RegisterDefaultRepository(rep.Repo)
+		} else {
+			rc, events = mrc.RegisterRepository(rep.Repo, name)
+		}
+		var buildErr error
+		for ev := range events { // closed after the repository has been filed in the registry
+			if ev.Err != nil && buildErr == nil {
+				buildErr = ev.Err
+			}
+		}
+		if buildErr != nil {
+			_ = rc.Close()
+			_ = mrc.Close()
+			for _, s := range h.Repos {
+				s.Rep.Cache = nil
+			}
+			return nil, fmt.Errorf("cache build of %s: %w", name, buildErr)
+		}
+		if _, err := mrc.ResolveRepo(name); err != nil {
+			_ = mrc.Close()
+			return nil, fmt.Errorf("repository %s is not in the registry after its cache was built: %w", name, err)
+		}
+		rep.Cache = rc
+		h.Repos = append(h.Repos, GQLServed{Name: name, Rep: rep, RC: rc})
+	}
+	h.Rep, h.RC = h.Repos[0].Rep, h.Repos[0].RC
 	// One GraphQL handler (one root resolver) serves both stacks: whether a user is attached is a property of
 	// the request, so nothing a request with a user leaves behind in the handler may authorise a later one without.
 	graphqlHandler := graphql.NewHandler(mrc, nil)
 	h.anon = webuiRouter(mrc, nil, graphqlHandler)
 	h.user = webuiRouter(mrc, &userId, graphqlHandler)
+	h.uploadH = httpapi.NewGitUploadFileHandler(mrc)
+	h.gitfileH = httpapi.NewGitFileHandler(mrc)
 	return h, nil
 }
 
-// Close releases the cache (and with it the repository and its lock file).
+// Close releases the caches (and with them the repositories and their lock files).
 func (h *GQLHarness) Close() {
 	if h.Rep != nil && h.Rep.Cache != nil {
 		_ = h.MRC.Close()
-		h.Rep.Cache = nil
-		h.Rep.Repo = nil
+		for _, s := range h.Repos {
+			s.Rep.Cache = nil
+			s.Rep.Repo = nil
+		}
 	}
 }
 
@@ -218,6 +268,41 @@ func (h *GQLHarness) GitFile(withUser bool, repoName, hash string) (status int, 
 	rec := httptest.NewRecorder()
 	panicked = serveRecovering(h.handler(withUser), rec, req)
 	return rec.Code, rec.Body.Bytes(), panicked
+}
+
+// serveVars prepares a request for a file handler called without the router: the route variables are set by
+// hand, the user is attached the way auth.Middleware does it.
+func (h *GQLHarness) serveVars(withUser bool, hd http.Handler, req *http.Request, vars map[string]string) (*httptest.ResponseRecorder, string) {
+	req = mux.SetURLVars(req, vars)
+	if withUser {
+		hd = auth.Middleware(h.UserId)(hd)
+	}
+	rec := httptest.NewRecorder()
+	panicked := serveRecovering(hd, rec, req)
+	return rec, panicked
+}
+
+// UploadVars hands a multipart form to the upload handler itself with the route variable "repo" set to repoVar
+// ("" is documented as "the default repository"; the router's pattern /upload/{repo} cannot carry it).
+func (h *GQLHarness) UploadVars(withUser bool, repoVar, formField string, content []byte) (status int, body string, panicked string) {
+	atomic.AddInt64(&h.Requests, 1)
+	buf := &bytes.Buffer{}
+	mw := multipart.NewWriter(buf)
+	part, _ := mw.CreateFormFile(formField, "noname")
+	_, _ = part.Write(content)
+	_ = mw.Close()
+	req := httptest.NewRequest("POST", "/upload/", buf)
+	req.Header.Set("Content-Type", mw.FormDataContentType())
+	rec, p := h.serveVars(withUser, h.uploadH, req, map[string]string{"repo": repoVar})
+	return rec.Code, rec.Body.String(), p
+}
+
+// GitFileVars asks the download handler itself, with the route variables set to repoVar and hash.
+func (h *GQLHarness) GitFileVars(withUser bool, repoVar, hash string) (status int, body []byte, panicked string) {
+	atomic.AddInt64(&h.Requests, 1)
+	req := httptest.NewRequest("GET", "/gitfile/", nil)
+	rec, p := h.serveVars(withUser, h.gitfileH, req, map[string]string{"repo": repoVar, "hash": hash})
+	return rec.Code, rec.Body.Bytes(), p
 }
 
 // ---- JSON navigation ---------------------------------------------------------
